@@ -36,6 +36,7 @@ import LiquerProofs.Lemmas.ConcO5
 import LiquerProofs.Lemmas.ConcO6
 import LiquerProofs.Lemmas.EvalCor
 import LiquerProofs.Lemmas.EvalExample
+import LiquerProofs.Lemmas.ConcFile3
 
 namespace Liquer.C12
 
@@ -344,4 +345,204 @@ example : Reach env0 cfg0 (envMeta cfg0 (s "one") statusReady) ∧ Inv env0 C0 (
 
 end Liquer.C12
 
+/-! ## file-operation granularity
+
+The theorems above take one cache operation as one atomic step.  For `FileCache` (and its obfuscating / encrypting subclasses) one
+operation is a sequence of file operations, and the scheduler may switch threads between any two of them.  Model:
+`LiquerModel/ConcFile.lean` — `storeStepsN` / `storeMetaStepsN` are the file operations of `FileCache.store` / `store_metadata` with
+the writer's OWN temporary names (`tmp_<uuid4>` in the code), `Interleave` / `Interleave3` (and the executable `merge` / `merge3`)
+are the schedules, `runPrefix n l d0` is the directory after the first `n` file operations, `FileC.get` is what a reader (a `get` of
+any thread, or of a fresh cache object) obtains from that directory.  The step lists are tied to the ones the C16 crash replay
+validates against the code by `file_steps_link_exact` / `file_steps_link_run`.
+Proof: `Lemmas/ConcFile2.lean` (an invariant over the directory and the positions of the threads: a writer's temporaries are
+touched by nobody else; the data file, once published by anybody, is absent or complete; the metadata file, once touched by anybody,
+is absent, a progress record, or a ready record whose writer has published the data before), `Lemmas/ConcFile3.lean`. -/
+
+namespace Liquer.C12
+open Liquer Liquer.Crash
+
+/-- **two concurrent `FileCache.store` of one key**: writers A and B of the same key and type whose encoded data bytes are equal
+(concurrent evaluations of one key are deterministic), with four pairwise distinct temporary names, started on ANY directory `d0`.
+After EVERY prefix (`n` file operations) of EVERY interleaving `l` of their file operations a reader of the key obtains what it
+obtained from `d0` (the old entry, or a miss), or a miss, or the complete new data with A's or with B's ready metadata — never a
+truncated or mixed value; and every key with another digest reads exactly as in `d0`.  (Nothing is assumed about `d0`: it may hold
+an old entry of another type, stray data files, or files named like the temporaries; the decoders are only assumed to accept the
+complete payloads of the two states, `CodecAt` as in C16.) -/
+theorem file_writers_serializable (c : FileCfg) (d0 : CDir) (stA stB : CState) (okA : CodecAt c stA) (okB : CodecAt c stB)
+    (hq : stB.metadata.query = stA.metadata.query) (hty : stB.metadata.typeId = stA.metadata.typeId)
+    (hdata : c.enc (c.serD stB.metadata.typeId stB.data) = c.enc (c.serD stA.metadata.typeId stA.data))
+    (a1 a2 b1 b2 : Nat) (hdist : [a1, a2, b1, b2].Nodup) (l : List (Step FName))
+    (hl : Interleave (storeStepsN c (.tmp a1) (.tmp a2) stA) (storeStepsN c (.tmp b1) (.tmp b2) stB) l) (n : Nat) :
+    (FileC.get c (runPrefix n l d0) stA.metadata.query = FileC.get c d0 stA.metadata.query ∨
+     FileC.get c (runPrefix n l d0) stA.metadata.query = none ∨
+     FileC.get c (runPrefix n l d0) stA.metadata.query = some { metadata := { stA.metadata with status := ready }, data := stA.data } ∨
+     FileC.get c (runPrefix n l d0) stA.metadata.query = some { metadata := { stB.metadata with status := ready }, data := stA.data }) ∧
+    ∀ k', c.h k' ≠ c.h stA.metadata.query → FileC.get c (runPrefix n l d0) k' = FileC.get c d0 k' :=
+  writers2 c d0 stA stB okA okB hq hty hdata a1 a2 b1 b2 hdist l hl n
+
+/-- the same in the vocabulary of the codec laws (`CodecOK`: decoders invert encoders) with the old entry named: the reader sees
+a miss, the old state, or the complete new state -/
+theorem file_writers_serializable_old (c : FileCfg) (ok : CodecOK c) (d0 : CDir) (k : Str) (old : Option CState)
+    (hold : FileC.get c d0 k = old) (stA stB : CState) (hkA : stA.metadata.query = k) (hkB : stB.metadata.query = k)
+    (hty : stB.metadata.typeId = stA.metadata.typeId) (hdata : c.serD stB.metadata.typeId stB.data = c.serD stA.metadata.typeId stA.data)
+    (a1 a2 b1 b2 : Nat) (hdist : [a1, a2, b1, b2].Nodup) (l : List (Step FName))
+    (hl : Interleave (storeStepsN c (.tmp a1) (.tmp a2) stA) (storeStepsN c (.tmp b1) (.tmp b2) stB) l) (n : Nat) :
+    FileC.get c (runPrefix n l d0) k = none ∨ FileC.get c (runPrefix n l d0) k = old ∨
+    (∃ st, FileC.get c (runPrefix n l d0) k = some st ∧ st.data = stA.data ∧ st.data = stB.data ∧
+      (st.metadata = { stA.metadata with status := ready } ∨ st.metadata = { stB.metadata with status := ready })) := by
+  subst hkA
+  have hAB : stA.data = stB.data := by
+    have h1 := ok.deD_serD stA.metadata.typeId stA.data
+    have h2 := ok.deD_serD stB.metadata.typeId stB.data
+    rw [hdata, hty, h1] at h2
+    exact Option.some.inj h2
+  rcases (writers2 c d0 stA stB (ok.at stA) (ok.at stB) hkB hty (by rw [hdata]) a1 a2 b1 b2 hdist l hl n).1 with h | h | h | h
+  · exact Or.inr (Or.inl (h.trans hold))
+  · exact Or.inl h
+  · exact Or.inr (Or.inr ⟨_, h, rfl, hAB, Or.inl rfl⟩)
+  · exact Or.inr (Or.inr ⟨_, h, rfl, hAB, Or.inr rfl⟩)
+
+/-- **progress records are harmless**: the same with a third thread that writes a progress record for the key
+(`store_metadata(m)`, `m.status ≠ ready` — what the repaired evaluator guarantees, repo fix cb22d87), under every three-way
+interleaving of the file operations: the reader still obtains only what it obtained before, a miss, or the complete new state.
+(One progress writer; any number of them, and progress writes of the store writers themselves before their `store`, are covered only
+by the cache-operation theorems above and by the schedules of `harness/concfile.py`.) -/
+theorem file_writers_progress_harmless (c : FileCfg) (d0 : CDir) (stA stB : CState) (okA : CodecAt c stA) (okB : CodecAt c stB)
+    (hq : stB.metadata.query = stA.metadata.query) (hty : stB.metadata.typeId = stA.metadata.typeId)
+    (hdata : c.enc (c.serD stB.metadata.typeId stB.data) = c.enc (c.serD stA.metadata.typeId stA.data))
+    (mP : CMeta) (hPq : mP.query = stA.metadata.query) (hPdec : (c.dec (c.enc (c.serM mP))).bind c.deM = some mP)
+    (hPs : mP.status ≠ ready)
+    (a1 a2 b1 b2 tp : Nat) (hdist : [a1, a2, b1, b2, tp].Nodup) (l : List (Step FName))
+    (hl : Interleave3 (storeStepsN c (.tmp a1) (.tmp a2) stA) (storeStepsN c (.tmp b1) (.tmp b2) stB)
+      (storeMetaStepsN c (.tmp tp) mP) l) (n : Nat) :
+    (FileC.get c (runPrefix n l d0) stA.metadata.query = FileC.get c d0 stA.metadata.query ∨
+     FileC.get c (runPrefix n l d0) stA.metadata.query = none ∨
+     FileC.get c (runPrefix n l d0) stA.metadata.query = some { metadata := { stA.metadata with status := ready }, data := stA.data } ∨
+     FileC.get c (runPrefix n l d0) stA.metadata.query = some { metadata := { stB.metadata with status := ready }, data := stA.data }) ∧
+    ∀ k', c.h k' ≠ c.h stA.metadata.query → FileC.get c (runPrefix n l d0) k' = FileC.get c d0 k' :=
+  writers3 c d0 stA stB okA okB hq hty hdata mP hPq hPdec hPs a1 a2 b1 b2 tp hdist l hl n
+
+/-- one store writer and one progress writer (not an instance of the previous theorem, whose second store writer runs to the
+end of the interleaving): the reader obtains what it obtained before, a miss, or the complete new state -/
+theorem file_writer_and_progress (c : FileCfg) (d0 : CDir) (st : CState) (ok : CodecAt c st)
+    (mP : CMeta) (hPq : mP.query = st.metadata.query) (hPdec : (c.dec (c.enc (c.serM mP))).bind c.deM = some mP)
+    (hPs : mP.status ≠ ready) (a1 a2 tp : Nat) (hdist : [a1, a2, tp].Nodup) (l : List (Step FName))
+    (hl : Interleave (storeStepsN c (.tmp a1) (.tmp a2) st) (storeMetaStepsN c (.tmp tp) mP) l) (n : Nat) :
+    (FileC.get c (runPrefix n l d0) st.metadata.query = FileC.get c d0 st.metadata.query ∨
+     FileC.get c (runPrefix n l d0) st.metadata.query = none ∨
+     FileC.get c (runPrefix n l d0) st.metadata.query = some { metadata := { st.metadata with status := ready }, data := st.data }) ∧
+    ∀ k', c.h k' ≠ c.h st.metadata.query → FileC.get c (runPrefix n l d0) k' = FileC.get c d0 k' :=
+  writer_and_progress c d0 st ok mP hPq hPdec hPs a1 a2 tp hdist l hl n
+
+/-- **link to the crash model (exact)**: with the crash model's temporary name, on a directory holding the metadata file of the key
+and exactly one data file of the key (of the state's type), `storeStepsN` IS the list `storeStepsC` that the C16 crash replay
+compares with the file operations of the code -/
+theorem file_steps_link_exact (c : FileCfg) (d : CDir) (st : CState) (x : Data)
+    (hs : (AL.get d (.state (c.h st.metadata.query))).isSome = true)
+    (hd : d.filter (fun e => FileC.isDataOf (c.h st.metadata.query) e.1) =
+      [(.data (c.h st.metadata.query) (c.ext st.metadata.typeId), x)]) :
+    storeStepsN c tmpC tmpC st = storeStepsC c d st :=
+  storeStepsN_eq_storeStepsC c d st x hs hd
+
+/-- **link (effect)**: on every directory without a data file of ANOTHER type for the key the two lists lead to the same directory
+(`storeStepsC` omits the unlinks of missing files, which are no-ops of `execC`) -/
+theorem file_steps_link_run (c : FileCfg) (d : CDir) (st : CState)
+    (hd : ∀ f ∈ d, FileC.isDataOf (c.h st.metadata.query) f.1 = true →
+      f.1 = .data (c.h st.metadata.query) (c.ext st.metadata.typeId)) :
+    (storeStepsN c tmpC tmpC st).foldl execC d = (storeStepsC c d st).foldl execC d :=
+  storeStepsN_run_eq_storeStepsC c d st hd
+
+/-- the executable schedules are exactly the interleavings -/
+theorem file_merge_iff_interleave {α : Type} (x y l : List α) : Interleave x y l ↔ ∃ sch, l = merge sch x y :=
+  ⟨interleave_merge, fun ⟨sch, h⟩ => h ▸ merge_interleave sch x y⟩
+
+theorem file_merge3_interleave3 {α : Type} (sch : List Nat) (x y z : List α) : Interleave3 x y z (merge3 sch x y z) :=
+  merge3_interleave3 sch x y z
+
+/-- a shuffle of (a shuffle of two threads) with a third thread is a three-way interleaving -/
+theorem file_nested_interleave {α : Type} {x y xy z l : List α} (h1 : Interleave x y xy) (h2 : Interleave xy z l) :
+    Interleave3 x y z l := h1.nest h2
+
+/-! ### non-vacuity, a concrete schedule, and the negative witness (shared temporary name) -/
+
+def fMetaA : CMeta := { query := ['k'], status := ready, typeId := ['t'], rest := ['a'] }
+def fMetaB : CMeta := { query := ['k'], status := ready, typeId := ['t'], rest := ['b'] }
+def fMetaP : CMeta := { query := ['k'], status := "evaluation".toList, typeId := ['t'] }
+
+/-- identity codec; three metadata records with distinct payloads; the data decoder accepts ANY bytes (every prefix of a payload
+decodes to a shorter value: truncation would be visible) -/
+def fCfg : FileCfg :=
+  { h := id, ext := id, enc := id, dec := some,
+    serM := fun m => if m = fMetaA then [1] else if m = fMetaB then [2] else [3],
+    deM := fun b => if b = [1] then some fMetaA else if b = [2] then some fMetaB else if b = [3] then some fMetaP else none,
+    serD := fun _ _ => [4, 5], deD := fun _ b => some (some (b.map (fun x => Char.ofNat x.toNat))) }
+
+def fStA : CState := { metadata := { fMetaA with status := [] }, data := some [Char.ofNat 4, Char.ofNat 5] }
+def fStB : CState := { metadata := { fMetaB with status := "evaluation".toList }, data := some [Char.ofNat 4, Char.ofNat 5] }
+/-- a complete old entry of the key and an entry of another key -/
+def fOld : CDir := [(.state ['k'], [2]), (.data ['k'] ['t'], [7]), (.state ['j'], [1]), (.data ['j'] ['t'], [9])]
+
+def fA (n1 n2 : Nat) : List (Step FName) := storeStepsN fCfg (.tmp n1) (.tmp n2) fStA
+def fB (n1 n2 : Nat) : List (Step FName) := storeStepsN fCfg (.tmp n1) (.tmp n2) fStB
+/-- A: unlink, unlink, create, write — B: unlink, unlink, create — A: close, rename (data), create, write, close, rename (metadata) — B: the rest -/
+def fSched : List Bool := [true, true, true, true, false, false, false, true, true, true, true, true, true]
+
+-- the hypotheses of `file_writers_serializable` / `file_writers_progress_harmless` are satisfiable
+example : CodecAt fCfg fStA ∧ CodecAt fCfg fStB ∧ fStB.metadata.query = fStA.metadata.query ∧
+    fStB.metadata.typeId = fStA.metadata.typeId ∧
+    fCfg.enc (fCfg.serD fStB.metadata.typeId fStB.data) = fCfg.enc (fCfg.serD fStA.metadata.typeId fStA.data) ∧
+    [10, 11, 20, 21, 30].Nodup ∧ fMetaP.query = fStA.metadata.query ∧
+    (fCfg.dec (fCfg.enc (fCfg.serM fMetaP))).bind fCfg.deM = some fMetaP ∧ fMetaP.status ≠ ready ∧
+    fCfg.h ['j'] ≠ fCfg.h fStA.metadata.query :=
+  ⟨⟨by decide, by decide⟩, ⟨by decide, by decide⟩, by decide, by decide, by decide, by decide, by decide, by decide, by decide, by decide⟩
+
+example : fA 10 11 =
+    [.unlink (.state ['k']), .unlink (.data ['k'] ['t']), .create (.tmp 10), .append (.tmp 10) [4, 5], .close (.tmp 10),
+     .rename (.tmp 10) (.data ['k'] ['t']), .create (.tmp 11), .append (.tmp 11) [1], .close (.tmp 11),
+     .rename (.tmp 11) (.state ['k'])] := by decide
+
+-- with the writers' OWN temporaries the schedule `fSched` shows the old entry, then misses, then the complete new entry
+example : (List.range 21).map (fun n => (FileC.get fCfg (runPrefix n (merge fSched (fA 10 11) (fB 20 21)) fOld) ['k']).map
+      (fun st => (st.metadata.rest, st.data))) =
+    [some (['b'], some [Char.ofNat 7])] ++ List.replicate 12 none ++ List.replicate 7 (some (['a'], some [Char.ofNat 4, Char.ofNat 5])) ++
+      [some (['b'], some [Char.ofNat 4, Char.ofNat 5])] := by
+  decide +kernel
+
+-- and the theorem applies to this schedule (every prefix, the other key untouched)
+example (n : Nat) : FileC.get fCfg (runPrefix n (merge fSched (fA 10 11) (fB 20 21)) fOld) ['j'] = FileC.get fCfg fOld ['j'] :=
+  (file_writers_serializable fCfg fOld fStA fStB ⟨by decide, by decide⟩ ⟨by decide, by decide⟩ (by decide) (by decide) (by decide)
+    10 11 20 21 (by decide) _ (merge_interleave fSched _ _) n).2 ['j'] (by decide)
+
+/-- **negative witness** (the seeded change C12-1: the temporary file is named after its target, so two writers of one key share
+it): when A and B use the SAME temporary name for the data file, under the schedule `fSched` B's `open(…, "wb")` truncates the file A
+has just written; A publishes the empty file and then its ready metadata: after 13 file operations the reader is served a state
+with status `ready` whose data is a proper prefix (here: the empty prefix) of the new data — and after all 20 operations the
+truncated entry is still there.  `file_writers_serializable` excludes exactly this for distinct names. -/
+theorem file_shared_tmp_truncates :
+    Interleave (fA 0 11) (fB 0 21) (merge fSched (fA 0 11) (fB 0 21)) ∧
+    FileC.get fCfg (runPrefix 13 (merge fSched (fA 0 11) (fB 0 21)) fOld) ['k'] = some { metadata := fMetaA, data := some [] } ∧
+    fMetaA.status = ready ∧ ([] : Str) ≠ [Char.ofNat 4, Char.ofNat 5] ∧ ([] : Str) <+: [Char.ofNat 4, Char.ofNat 5] ∧
+    FileC.get fCfg (runPrefix 20 (merge fSched (fA 0 11) (fB 0 21)) fOld) ['k'] = some { metadata := fMetaB, data := some [] } ∧
+    FileC.get fCfg (runPrefix 13 (merge fSched (fA 10 11) (fB 20 21)) fOld) ['k'] =
+      some { metadata := fMetaA, data := some [Char.ofNat 4, Char.ofNat 5] } :=
+  ⟨merge_interleave _ _ _, by decide +kernel, rfl, by decide, by decide, by decide +kernel, by decide +kernel⟩
+
+-- a three-way schedule with a progress writer: its record hides the entry (a miss) until a store writer publishes again
+example : (List.range 25).map (fun n => (FileC.get fCfg (runPrefix n
+      (merge3 [0, 0, 0, 0, 0, 0, 0, 0, 0, 0, 2, 2, 2, 2] (fA 10 11) (fB 20 21) (storeMetaStepsN fCfg (.tmp 30) fMetaP)) fOld) ['k']).map
+      (fun st => st.metadata.rest)) =
+    [some ['b']] ++ List.replicate 9 none ++ List.replicate 4 (some ['a']) ++ List.replicate 10 none ++ [some ['b']] := by
+  decide +kernel
+
+-- the theorem applies to it
+example (n : Nat) :
+    let l := merge3 [0, 0, 0, 0, 0, 0, 0, 0, 0, 0, 2, 2, 2, 2] (fA 10 11) (fB 20 21) (storeMetaStepsN fCfg (.tmp 30) fMetaP)
+    FileC.get fCfg (runPrefix n l fOld) ['j'] = FileC.get fCfg fOld ['j'] :=
+  (file_writers_progress_harmless fCfg fOld fStA fStB ⟨by decide, by decide⟩ ⟨by decide, by decide⟩ (by decide) (by decide) (by decide)
+    fMetaP (by decide) (by decide) (by decide) 10 11 20 21 30 (by decide) _ (merge3_interleave3 _ _ _ _) n).2 ['j'] (by decide)
+
+end Liquer.C12
+
+
 -- OBLIGATIONS: Liquer.C12.inst_registry Liquer.C12.good_answer Liquer.C12.oracle_refines Liquer.C12.oracle_frame Liquer.C12.answers_extend_trace Liquer.C12.apply_op_sound Liquer.C12.meta_remove_harmless Liquer.C12.recorded_answer_good Liquer.C12.inv_iff Liquer.C12.fresh_inv Liquer.C12.step_preserves_inv Liquer.C12.env_preserves_inv Liquer.C12.reach_preserves_inv Liquer.C12.schedule_preserves_inv Liquer.C12.schedule_reach Liquer.C12.events_preserve_inv Liquer.C12.events_reach Liquer.C12.cache_sound_every_schedule Liquer.C12.cache_values_fresh Liquer.C12.result_is_solo Liquer.C12.result_is_sequential Liquer.C12.same_query_same_result Liquer.C12.answers_are_finished Liquer.C12.never_serves_unfinished Liquer.C12.metadata_only_is_miss Liquer.C12.evalQO_agrees
+-- OBLIGATIONS: Liquer.C12.file_writers_serializable Liquer.C12.file_writers_serializable_old Liquer.C12.file_writers_progress_harmless Liquer.C12.file_writer_and_progress Liquer.C12.file_steps_link_exact Liquer.C12.file_steps_link_run Liquer.C12.file_merge_iff_interleave Liquer.C12.file_merge3_interleave3 Liquer.C12.file_nested_interleave Liquer.C12.file_shared_tmp_truncates
